@@ -3,6 +3,7 @@ package main
 // Loops are cut at their headers with invariants from the contract file; Map.Walk callbacks likewise.
 
 import (
+	"regexp"
 	"fmt"
 	"go/token"
 	"os"
@@ -52,6 +53,9 @@ func (x *Exec) frameEnv(st *State, fr *Frame) *cenv {
 func (x *Exec) enterLoop(st *State, fr *Frame, from, to *ssa.BasicBlock, li *loopInfo) []Outcome {
 	k := li.ord[to]
 	isBack := fr.loops[to] && li.body[to][from]
+	if os.Getenv("GOVC_DEBUG") != "" && x.probe != nil {
+		fmt.Fprintf(os.Stderr, "probe: enterLoop %d -> %d isBack=%v sameFr=%v\n", from.Index, to.Index, isBack, x.probe.sameFrame(fr))
+	}
 	// phi values along this edge
 	nphi := 0
 	var phis []*ssa.Phi
@@ -102,6 +106,19 @@ func (x *Exec) enterLoop(st *State, fr *Frame, from, to *ssa.BasicBlock, li *loo
 			return "true"
 		}
 		return sv.T
+	}
+	if isBack && x.probe != nil && x.probe.header == to && x.probe.sameFrame(fr) {
+		// probing a pure loop: remember under which condition this iteration reached the back edge
+		x.probe.arrivals = append(x.probe.arrivals, strings.Join(st.pc[x.probe.base:], "\x00"))
+		for i, phi := range phis {
+			if savedHas[i] {
+				fr.env[phi] = savedEnv[i]
+			} else {
+				delete(fr.env, phi)
+			}
+		}
+		fr.names = savedNames
+		return nil
 	}
 	if isBack && ct != nil {
 		// history sequences: name(i) is the ghost expression at the end of the iteration that started with $i == i
@@ -179,7 +196,7 @@ func (x *Exec) enterLoop(st *State, fr *Frame, from, to *ssa.BasicBlock, li *loo
 		x.addObl(fmt.Sprintf("loop%d.init", k), cl.Tag, cl.Text, st, evalInv(cl), cl.Props)
 	}
 	// havoc everything the loop may modify
-	x.havocLoop(st, fr, to, li)
+	pureLoop := x.havocLoop(st, fr, to, li)
 	for _, phi := range phis {
 		nv := x.havocValue(st, fr.env[phi], phi.Type(), "phi_"+phi.Comment)
 		fr.env[phi] = nv
@@ -202,6 +219,9 @@ func (x *Exec) enterLoop(st *State, fr *Frame, from, to *ssa.BasicBlock, li *loo
 	}
 	for _, cl := range invs {
 		st.Assume(evalInv(cl))
+	}
+	if len(invs) == 0 && pureLoop && x.probe == nil && os.Getenv("GOVC_NO_AUTOINV") == "" {
+		x.autoInvariant(st, fr, from, to, nphi, phis, vals, li)
 	}
 	if fr.prevSt == nil {
 		fr.prevSt, fr.prevNames = map[*ssa.BasicBlock]*State{}, map[*ssa.BasicBlock]map[string]Value{}
@@ -308,7 +328,7 @@ func (x *Exec) havocValue(st *State, old Value, ty types.Type, hint string) Valu
 }
 
 // havocLoop over-approximates the effect of arbitrarily many iterations.
-func (x *Exec) havocLoop(st *State, fr *Frame, header *ssa.BasicBlock, li *loopInfo) {
+func (x *Exec) havocLoop(st *State, fr *Frame, header *ssa.BasicBlock, li *loopInfo) (pure bool) {
 	cells := map[int]bool{}
 	ghosts := map[string]bool{}
 	evHandles := map[int]bool{}
@@ -379,6 +399,8 @@ func (x *Exec) havocLoop(st *State, fr *Frame, header *ssa.BasicBlock, li *loopI
 	if os.Getenv("GOVC_DEBUG") != "" {
 		fmt.Fprintf(os.Stderr, "havocLoop %s header=%d blocks=%d ghosts=%v all=%v cells=%v\n", fr.fn.Name(), header.Index, len(li.body[header]), ghosts, all, cells)
 	}
+	// a loop that writes nothing outside itself (a "check every element" loop)
+	pure = len(cells) == 0 && len(ghosts) == 0 && !all && len(evHandles) == 0 && len(x.dynCtxArgs) == 0 && len(x.dynCommits) == 0
 	for c := range cells {
 		if old, ok := st.cells[c]; ok {
 			switch cv := old.(type) {
@@ -437,11 +459,7 @@ func (x *Exec) havocLoop(st *State, fr *Frame, header *ssa.BasicBlock, li *loopI
 			}
 		}
 	}
-	if all || len(ghosts) > 0 {
-		for _, s := range st.stores {
-			_ = s
-		}
-	}
+	return pure
 }
 
 func (x *Exec) markReachable(st *State, v Value, cells map[int]bool) {
@@ -1140,4 +1158,159 @@ func (x *Exec) outerCtxHandle(fr *Frame, v ssa.Value, depth int) (int, bool) {
 		return x.outerCtxHandle(fr, d.X, depth+1)
 	}
 	return 0, false
+}
+
+// probeInfo: state of the probe run that derives the invariant of a pure "check every element" loop.
+func (p *probeInfo) sameFrame(fr *Frame) bool { return p.fr == fr || (p.fr.fn == fr.fn && p.fr.depth == fr.depth) }
+
+type probeInfo struct {
+	header   *ssa.BasicBlock
+	fr       *Frame
+	base     int // length of the path condition at the loop header
+	arrivals []string
+	body     map[*ssa.BasicBlock]bool
+}
+
+// autoInvariant: a loop without a contract invariant that writes nothing outside itself and whose only loop-carried value is its
+// counter. Every completed iteration took a path from the header to the back edge; the path conditions of those paths, as a
+// function of the counter, therefore hold for every earlier counter value:
+//     forall j :: first <= j < current  ==>  exists (values made up in that iteration) :: cont(j)
+// The body is run once in probe mode to collect cont; obligations raised during the probe are dropped (they are raised again by the
+// real run). This is what lets a checking loop be moved into a helper, renamed or restructured without a hand-written invariant.
+func (x *Exec) autoInvariant(st *State, fr *Frame, from, to *ssa.BasicBlock, nphi int, phis []*ssa.Phi, entryVals []Value, li *loopInfo) {
+	if os.Getenv("GOVC_DEBUG") != "" {
+		fmt.Fprintf(os.Stderr, "autoInvariant %s phis=%d\n", fr.fn.Name(), len(phis))
+	}
+	if len(phis) != 1 {
+		return
+	}
+	phi := phis[0]
+	if phi.Comment != "rangeindex" && !countingPhi(phi) {
+		return
+	}
+	cur, ok := fr.env[phi].(TV)
+	first, ok2 := entryVals[0].(TV)
+	if !ok || !ok2 || !strings.Contains(cur.T, "!") {
+		return
+	}
+	e := x.enc
+	probeSt := st.Clone()
+	nObl, nDecl := len(x.obls), len(e.decls)
+	savedUnv, savedPaths := x.unverified, x.paths
+	savedLoops := fr.loops[to]
+	savedEnvPhi, hadPhi := fr.env[phi]
+	savedNames := cloneNames(fr.names)
+	x.probe = &probeInfo{header: to, fr: fr, base: len(probeSt.pc), body: li.body[to]}
+	fr.loops[to] = true
+	func() {
+		defer func() {
+			if r := recover(); r != nil {
+				x.probe.arrivals = nil
+			}
+		}()
+		x.execFrom(probeSt, fr, to, nphi, from)
+	}()
+	pr := x.probe
+	x.probe = nil
+	failed := x.unverified != savedUnv
+	x.obls, x.unverified, x.paths = x.obls[:nObl], savedUnv, savedPaths
+	fr.loops[to] = savedLoops
+	if hadPhi {
+		fr.env[phi] = savedEnvPhi
+	}
+	fr.names = savedNames
+	if os.Getenv("GOVC_DEBUG") != "" {
+		fmt.Fprintf(os.Stderr, "autoInvariant %s failed=%v arrivals=%d unverified=%q\n", fr.fn.Name(), failed, len(pr.arrivals), x.unverified)
+	}
+	if failed || len(pr.arrivals) == 0 {
+		return
+	}
+	// values made up during the iteration (results of calls modelled as fresh constants) are existentially bound; one that is
+	// pinned by an equation on the path (err == nil ...) is eliminated by substitution, which keeps the fact usable for the solvers
+	declRe := regexp.MustCompile(`^\(declare-const (\S+) (.+)\)$`)
+	type exVar struct{ name, sort string }
+	var made []exVar
+	for _, d := range e.decls[nDecl:] {
+		if m := declRe.FindStringSubmatch(d); m != nil {
+			made = append(made, exVar{m[1], m[2]})
+		}
+	}
+	var disj []string
+	exNeeded := map[string]string{}
+	for _, a := range pr.arrivals {
+		conj := strings.Split(a, "\x00")
+		for _, v := range made {
+			for i, c := range conj {
+				t := ""
+				if strings.HasPrefix(c, "(= "+v.name+" ") && strings.HasSuffix(c, ")") {
+					t = c[len("(= "+v.name+" ") : len(c)-1]
+				} else if strings.HasPrefix(c, "(= ") && strings.HasSuffix(c, " "+v.name+")") {
+					t = c[len("(= ") : len(c)-len(" "+v.name+")")]
+				}
+				if t == "" || containsToken(t, v.name) || len(splitTop(t)) != 1 && strings.HasPrefix(t, "(") && false {
+					continue
+				}
+				if strings.Count(t, "(") != strings.Count(t, ")") {
+					continue
+				}
+				conj = append(conj[:i:i], conj[i+1:]...)
+				for k := range conj {
+					conj[k] = replaceToken(conj[k], v.name, t)
+				}
+				break
+			}
+		}
+		d := and(conj...)
+		for _, v := range made {
+			if containsToken(d, v.name) {
+				exNeeded[v.name] = v.sort
+			}
+		}
+		disj = append(disj, d)
+	}
+	cont := or(disj...)
+	var ex []string
+	for _, v := range made {
+		if s, ok := exNeeded[v.name]; ok {
+			ex = append(ex, fmt.Sprintf("(%s %s)", v.name, s))
+		}
+	}
+	// a range loop works with counter+1: quantify over that element index, so that the solvers can match a[k] directly
+	// (first <= counter < current < 2^63, so the addition does not wrap)
+	shifted := fmt.Sprintf("(wrap.i64 (+ %s 1))", cur.T)
+	var body, lo, hi string
+	if phi.Comment == "rangeindex" && strings.Contains(cont, shifted) {
+		body = strings.ReplaceAll(cont, shifted, "aj!")
+		body = replaceToken(body, cur.T, "(- aj! 1)")
+		lo, hi = app("+", first.T, "1"), app("+", cur.T, "1")
+	} else {
+		body = replaceToken(cont, cur.T, "aj!")
+		lo, hi = first.T, cur.T
+	}
+	if len(ex) > 0 {
+		body = fmt.Sprintf("(exists (%s) %s)", strings.Join(ex, " "), body)
+	}
+	st.Assume(fmt.Sprintf("(forall ((aj! Int)) (=> (and (<= %s aj!) (< aj! %s)) %s))", lo, hi, body))
+	x.warn("loop at %s: invariant derived automatically (pure checking loop)", x.pos(phi.Pos()))
+}
+
+func isTokChar(c byte) bool {
+	return c == '_' || c == '!' || c == '.' || c == '$' || c == '@' || c == '|' || (c >= '0' && c <= '9') || (c >= 'a' && c <= 'z') || (c >= 'A' && c <= 'Z')
+}
+
+func containsToken(s, tok string) bool { return replaceToken(s, tok, tok+"#") != s }
+
+// replaceToken replaces whole-symbol occurrences of tok in an S-expression text.
+func replaceToken(s, tok, by string) string {
+	var b strings.Builder
+	for i := 0; i < len(s); {
+		if strings.HasPrefix(s[i:], tok) && (i == 0 || !isTokChar(s[i-1])) && (i+len(tok) == len(s) || !isTokChar(s[i+len(tok)])) {
+			b.WriteString(by)
+			i += len(tok)
+			continue
+		}
+		b.WriteByte(s[i])
+		i++
+	}
+	return b.String()
 }
